@@ -206,12 +206,24 @@ class Machine:
                 return True
             if isinstance(e, ast.IfExp):
                 return ev(e.body, depth + 1) if ev(e.test, depth + 1) else ev(e.orelse, depth + 1)
+            if isinstance(e, (ast.Tuple, ast.List)) and isinstance(e.ctx, ast.Load):
+                return tuple(ev(x, depth + 1) for x in e.elts)
             if isinstance(e, ast.Call) and call_name(e) in ("max", "min", "abs", "bool", "int", "float") and not e.keywords:
                 args = [ev(a, depth + 1) for a in e.args]
                 return {"max": max, "min": min, "abs": abs, "bool": bool, "int": int, "float": lambda x: x}[call_name(e)](*args)
             raise Und(u(e)[:50])
 
         def store(t, val_):
+            if isinstance(t, (ast.Tuple, ast.List)):
+                if val_ is _UNK:
+                    for x in t.elts:
+                        store(x, _UNK)
+                    return
+                if not isinstance(val_, tuple) or len(val_) != len(t.elts):
+                    raise Und(f"store to `{u(t)[:40]}`")
+                for x, v_ in zip(t.elts, val_):
+                    store(x, v_)
+                return
             if isinstance(t, ast.Subscript) and isinstance(t.slice, ast.Constant) and u(t.value) == rowvar:
                 row[t.slice.value] = val_
             elif isinstance(t, ast.Subscript) and isinstance(t.slice, ast.Constant) and t.slice.value == "lr":
@@ -241,7 +253,8 @@ class Machine:
                             raise
                     ex(arm)
                 elif isinstance(st, ast.Assign):
-                    simple = all(isinstance(t, ast.Name) for t in st.targets)
+                    simple = all(isinstance(t, ast.Name) or (isinstance(t, ast.Tuple) and all(isinstance(x, ast.Name) for x in t.elts))
+                                 for t in st.targets)
                     try:
                         v = ev(st.value)
                     except Und:
